@@ -87,6 +87,9 @@ class SimFile(object):
             fs.read_events += 1
             fs.faults_fired['eio'] = fs.faults_fired.get('eio', 0) + 1
             self._ev('eio', self._pos, 0, 0)
+            if getattr(self, 'fail_local_interrupt', False):
+                fs.faults_fired['interrupt'] = fs.faults_fired.get('interrupt', 0) + 1
+                raise KeyboardInterrupt('injected at read %d of this handle' % j)
             raise OSError(errno.EIO, 'injected transient I/O error (read %d of this handle)' % j)
         k = fs.read_events
         fs.read_events += 1
